@@ -39,13 +39,21 @@ def _cmp(h, name, obj, call, args2):
         h.eq(f"{name}: memoised = fresh [{k}]", np.asarray(a), np.asarray(b))
 
 
-def rigid_body(h, method="r_OP", shared=(), op=None, seed=0):
+def rigid_body(h, method="r_OP", shared=(), op=None, seed=0, one=None):
     rng = np.random.default_rng(seed + 3)
     rb = lib.make_rb(rng, "rb")
     groups = dict(t=lambda tag: h.real(tag + "t"), q=lambda tag: np.concatenate([h.vec(tag + "r", 3), h.quat(tag + "P")]),
                   u=lambda tag: h.vec(tag + "u", 6), B=lambda tag: h.vec(tag + "B", 3))
     a1 = {g: f("a_") for g, f in groups.items()}
     a2 = {g: (a1[g] if g in shared else f("b_")) for g, f in groups.items()}
+    if one is not None:
+        # the second call differs from the first in ONE coordinate only (a cache key built from a slice of the arguments must still tell them apart)
+        g, k = one
+        a2 = dict(a1)
+        a2[g] = np.array(a1[g], dtype=object if h.sym else float).copy()
+        a2[g][k] = h.real(f"other_{g}{k}")
+        if g == "q":
+            h.assume(a2["q"][3:] @ a2["q"][3:] > 0, "quaternion nonzero")
     calls = dict(A_IB=lambda a: rb.A_IB(a["t"], a["q"]), A_IB_q=lambda a: rb.A_IB_q(a["t"], a["q"]),
                  r_OP=lambda a: rb.r_OP(a["t"], a["q"], B_r_CP=a["B"]), v_P=lambda a: rb.v_P(a["t"], a["q"], a["u"], B_r_CP=a["B"]),
                  J_P=lambda a: rb.J_P(a["t"], a["q"], B_r_CP=a["B"]),
@@ -110,13 +118,17 @@ def rod(h, interp="Quaternion", method="_eval", shared=(), op=None, seed=0):
     _cmp(h, method, r, call, (qb, xb))
 
 
-def sphere2sphere(h, method="t1t2", shared=(), op=None, seed=0):
+def sphere2sphere(h, method="t1t2", shared=(), op=None, seed=0, one=None):
     from checks.c06 import _s2s
     sysm, a, b, con, r1, r2, mu = _s2s(h, "PM-PM", seed)
     qa = h.vec("a_q", 6)
     ta = h.real("a_t")
     qb = qa if "q" in shared else h.vec("b_q", 6)
     tb = ta if "t" in shared else h.real("b_t")
+    if one is not None:
+        qb = np.array(qa, dtype=object if h.sym else float).copy()
+        qb[one] = h.real(f"other_q{one}")
+        tb = ta
     f = getattr(con, method)
     f(ta, qa)
     if op == "step_callback":
@@ -169,6 +181,9 @@ def cases(tier, seed):
                 if tier == "quick" and op == "other_methods" and len(sh) not in (3, 4):
                     continue
                 cs.append(Case(f"rb/{method}/share[{','.join(sh)}]/{op}", rigid_body, dict(method=method, shared=sh, op=op, seed=seed), timeout=T))
+        for g, n in ((("q", 7), ("B", 3)) if (tier == "thorough" or method in ("A_IB", "r_OP", "v_P", "J_P")) else ()):
+            for k in range(n):
+                cs.append(Case(f"rb/{method}/differs_only_in_{g}{k}", rigid_body, dict(method=method, shared=("t", "q", "u", "B"), one=(g, k), seed=seed), timeout=T))
     for interp in ("Quaternion", "R12"):
         for method in ("_eval", "_deval", "A_IB", "r_OP", "r_OP_q", "v_P", "J_P", "strains_after_offset_query"):
             for sh in _subsets(("qe", "xi")):
@@ -178,6 +193,9 @@ def cases(tier, seed):
         for sh in _subsets(("t", "q")):
             for op in (None, "step_callback", "step_callback_same"):
                 cs.append(Case(f"s2s/{method}/share[{','.join(sh)}]/{op}", sphere2sphere, dict(method=method, shared=sh, op=op, seed=seed), timeout=T))
+    for method in (("n", "n_q1_q2", "t1t2", "t1t2_q1_q2") if tier == "thorough" else ("n", "t1t2")):
+        for k in range(6):
+            cs.append(Case(f"s2s/{method}/differs_only_in_q{k}", sphere2sphere, dict(method=method, shared=("t", "q"), one=k, seed=seed), timeout=T))
     for sh in _subsets(("xi", "el")):
         cs.append(Case(f"mesh/share[{','.join(sh)}]", mesh, dict(shared=sh, seed=seed), timeout=T, sentinel=False))
     for k in (1, 2):
